@@ -1,6 +1,7 @@
 """C02 — connection codes are single-use, short-lived and die with the booking"""
 from tiecommon import TIE_LOCKS, TIE_TTLCODE
 import vlib
+from relaycommon import RelayMode
 from vlib import hx
 
 RULE = ("TRANSLATOR TIE: internal/ttlcode/ttlcode.go is translated to Lean on every run (Relay/Extracted/GenTtlcode.lean) and proved to refine to "
@@ -136,4 +137,4 @@ class GenTtlMode(TtlMode):
 
 
 def modes(tier):
-    return [TtlMode(), GenTtlMode()]
+    return [TtlMode(), GenTtlMode(), RelayMode("C02")]   # relay: codes as the handlers and the websocket admission use them (die with the booking)
